@@ -30,7 +30,7 @@ CHECKS = {
    design_ref="DESIGN.md §5 C03"),
 
  "C09": dict(engine="schedx", level="model_checking",
-   text="Stateless CHESS-style schedule exploration of the real client auto-merge code (default AutoMerge/RemoteSyncHandler methods over a real LocalAccount) against a real in-process server: one execute_sync call per device, a gate at every protocol request (exists, status, sync, scan, diff, patch, ...) inside the harness's SyncClient wrapper; deviation-bounded DFS over choice vectors (preemption bound 2 quick / 4 thorough) for pre-histories {one ahead, soft conflict equal/unequal length, same secret edited on both, three devices, hard conflict (one device compacted the folder after an update while the other appended to the old history); thorough adds: no divergence, both rename, hard conflict through a folder password change}. Per step: the server's logs never lose an event they held (except the folder log a device rewrote on purpose in the hard-conflict pre-histories), read requests change nothing; per execution: every sync call ends (no deadlock, no horizon overflow), no event the server ever held is absent at the end, three further sequential rounds converge, and a server restarted on the same storage holds exactly the logs the live server held.",
+   text="Stateless CHESS-style schedule exploration of the real client auto-merge code (default AutoMerge/RemoteSyncHandler methods over a real LocalAccount) against a real in-process server: one execute_sync call per device, a gate at every protocol request (exists, status, sync, scan, diff, patch, ...) inside the harness's SyncClient wrapper; deviation-bounded DFS over choice vectors (preemption bound 2 quick / 4 thorough) for pre-histories {one ahead, soft conflict equal/unequal length, same secret edited on both, three devices, hard conflict (one device compacted the folder after an update while the other appended to the old history); a staggered three-device pre-history built with real sequential syncs (different ancestors: one device's older event is merged in front of events the other already holds); thorough adds: no divergence, both rename, hard conflict through a folder password change}. Per step: the server's logs never lose an event they held (except the folder log a device rewrote on purpose in the hard-conflict pre-histories), read requests change nothing; per execution: every sync call ends (no deadlock, no horizon overflow), no event the server ever held is absent at the end, three further sequential rounds converge, and a server restarted on the same storage holds exactly the logs the live server held.",
    note="Scheduling points are protocol requests (sound for devices that share only the server; the server handles one request at a time in the harness); interleavings inside one handler are not explored; replayed prefixes must reproduce (divergence is a machinery error).",
    technique="stateless deviation-bounded (preemption-bounded) DFS over request-level interleavings of real concurrent sync calls",
    design_ref="DESIGN.md §5 C09"),
@@ -64,7 +64,7 @@ CHECKS = {
    technique="bounded exhaustive enumeration of sync worlds (offline-suffix tuples x sync orders x clock patterns) executed on the real client/server implementation",
    design_ref="DESIGN.md §5 C04"),
  "C05": dict(engine="syncx", level="model_checking",
-   text="On the same worlds as C04: for every log on which all replicas converged, the log must be the common prefix followed by exactly the multiset union of the devices' offline suffixes (byte-identical events made on several devices counted once): nothing lost, nothing duplicated, nothing added, prefix untouched, and the events unique to one device in timestamp order.",
+   text="On the same worlds as C04: for every log on which all replicas converged, the log must be the common prefix followed by exactly the multiset union of the devices' offline suffixes (byte-identical events made on several devices counted once): nothing lost, nothing duplicated, nothing added, prefix untouched, the events unique to one device in timestamp order and each device's own events in the order it committed them; and every converged folder must equal the replay (independent reference reducer) of the shared prefix followed by all devices' offline events in timestamp order (worlds without timestamp ties), so that the latest edit wins and a deleted secret stays deleted unless edited later. Quick also runs the two-events-on-both-sides worlds in which both suffixes contain the same byte-identical event next to another event.",
    note="As C04; logs that did not converge are C04's business and are skipped (count reported).",
    technique="bounded exhaustive enumeration of sync worlds with a multiset-union merge model as oracle on the converged logs",
    design_ref="DESIGN.md §5 C05"),
